@@ -92,8 +92,6 @@ def compare(acc, items, u, c, rcase, labelled):
                     u.lines[idx], du.hex(), dc.hex(), pc[0]), rcase, {'line': idx + 1, 'offsets': [su, sc]})
             elif pc and pu:
                 acc['ctr']['both_builds_deviate'] += 1
-            if len(dc) > len(du):
-                core.add_viol(acc, 'line `%s` grew under compression: %s vs %s' % (u.lines[idx], dc.hex(), du.hex()), rcase, {})
         elif k in ('data', 'pack'):
             if pc and not pu:
                 core.add_viol(acc, 'data line `%s` under compression: %s' % (u.lines[idx], pc[0]), rcase, {})
@@ -128,6 +126,19 @@ CFGS = [
 ]
 
 
+def make_rand(seed, idx):
+    rng = random.Random('c04-r-%d-%d' % (seed, idx))
+    if idx % 5 in (1, 3):
+        # label-dependent immediates whose value sits on an RVC operand-set edge while the compression pass looks at them
+        # (pessimistic label value a multiple of 4 KiB, %lo = 0 / 31 / 32, L2 - L1 = 0 ...): see c12.edge_program
+        from . import c12
+        return c12.edge_program(rng)
+    items = randprog.gen(rng, CFGS[idx % len(CFGS)])
+    if idx % 3 == 0:
+        items = randprog.constify(rng, items, 0.2)
+    return items
+
+
 def run_shard(sh, deadline):
     asm = core.load_asm()
     acc = core.new_acc()
@@ -147,10 +158,7 @@ def run_shard(sh, deadline):
             core.add_sample(acc, {'boundary_batch_first_lines': P.render(allb[sh['batches'][0]:sh['batches'][0] + 4])})
     else:
         for idx in range(sh['lo'], sh['hi']):
-            rng = random.Random('c04-r-%d-%d' % (sh['seed'], idx))
-            items = randprog.gen(rng, CFGS[idx % len(CFGS)])
-            if idx % 3 == 0:
-                items = randprog.constify(rng, items, 0.2)
+            items = make_rand(sh['seed'], idx)
             r = run_pair(asm, acc, items, {'kind': 'rand', 'seed': sh['seed'], 'idx': idx}, labelled=True)
             if r and idx % 151 == 0:
                 core.add_sample(acc, {'random_program': r[0].lines[:10], 'len_u': len(r[0].out), 'len_c': len(r[1].out)})
@@ -192,9 +200,5 @@ def replay(case):
         allb = boundary_items()
         run_pair(asm, acc, allb[case['lo']:case['lo'] + case['n']], case)
     else:
-        rng = random.Random('c04-r-%d-%d' % (case['seed'], case['idx']))
-        items = randprog.gen(rng, CFGS[case['idx'] % len(CFGS)])
-        if case['idx'] % 3 == 0:
-            items = randprog.constify(rng, items, 0.2)
-        run_pair(asm, acc, items, case, labelled=True)
+        run_pair(asm, acc, make_rand(case['seed'], case['idx']), case, labelled=True)
     return acc
